@@ -599,26 +599,23 @@ def leaf_centre(facts, res, geo, cls=K, fname="getLeafCenter", R="C04.4.leaf-cen
 
 # ------------------------------------------------------------------------------------------ C04.5 / C04.6
 def stateless(facts, res, cls=K, R="C04.5.stateless-operators"):
+    """what operator-reachable code writes besides its outputs must be private to one kernel copy: no static local, nothing reached
+    through a shared pointer, and an owning raw pointer only with a copy constructor that does not hand the same storage to the copy"""
+    import c05
     ks = kstate.KState(facts)
     reach = ks.reachable(cls, kstate.OPERATORS)
     if len(reach) < 8:
         raise AnalysisBroken("%s: %d operator-reachable functions" % (cls, len(reach)))
+    scratch = c05.scratch_classes(facts, ks, reach)
+    c05.isolation(facts, res, ks, reach, scratch, kernel=cls, R=R)
     n = 0
     for c, m in reach:
         n += 1
         f = tbf.rel(facts.path_of(m))
-        for e in ks.member_events(c, m):
-            if e[1] in ("wcall", "wpart", "exec-out"):
-                res.violation(R, f, m["qname"], "member-write:%s" % e[2], e[0], "operator-reachable %s::%s writes the kernel member '%s': the result of an operator then depends on earlier calls, and copies / threads interfere" % (c, m["name"], e[2]))
-        names = {fl["name"] for _c, fl in ks.fields(c)}
         for x in walk(tbf.body(m)):
-            if x.get("k") in ("BinaryOperator", "CompoundAssignOperator") and x.get("op", "").endswith("=") and x.get("op") not in ("==", "!=", "<=", ">="):
-                l = strip(kids(x)[0])
-                if l.get("k") in ("MemberExpr", "CXXDependentScopeMemberExpr") and l.get("name") in names and (not kids(l) or strip(kids(l)[0]).get("k") == "CXXThisExpr"):
-                    res.violation(R, f, m["qname"], "member-assign:%s" % l["name"], x["l"][1], "operator-reachable %s::%s assigns the kernel member '%s'" % (c, m["name"], l["name"]))
             if x.get("k") == "VarDecl" and x.get("staticlocal") and not x.get("constexpr") and not x.get("t", "").startswith("const"):
                 res.violation(R, f, m["qname"], "static-local:%s" % x["name"], x["l"][1], "operator-reachable %s::%s keeps the static local '%s': shared by all kernel copies and threads" % (c, m["name"], x["name"]))
-    res.instance(R, cls, "umbrella 'core'", "%d operator-reachable functions write no member and keep no static local" % n)
+    res.instance(R, cls, "umbrella 'core'", "%d operator-reachable functions; members they write: %s" % (n, {c_: sorted(v) for c_, v in scratch.items()} or "none"))
     return n
 
 
